@@ -78,6 +78,9 @@ class RaiseEx(Exception):
     def __init__(self, kind, node=None): self.kind, self.node = kind, node
 class PathEnd(Exception): pass
 class Infeasible(Exception): pass
+class EnumV:
+    """enumerate(<array of symbolic length>)"""
+    def __init__(self, arr, start=0): self.arr, self.start = arr, start
 class Unsupported(Exception):
     """construct outside the interpretable subset"""
 
@@ -876,6 +879,19 @@ class Interp:
         if 'comp_sym' in self.ext: return self.ext['comp_sym'](self, e, g, it, F)
         raise Unsupported("comprehension over symbolic iterable")
     e_GeneratorExp = e_ListComp
+    def e_DictComp(self, e, F):
+        if len(e.generators) != 1: raise Unsupported("nested comprehension")
+        g = e.generators[0]
+        it = self.ev(g.iter, F)
+        if isinstance(it, RangeV) and not is_sym(conc(it.lo)) and not is_sym(conc(it.hi)): it = list(range(conc(it.lo), conc(it.hi)))
+        if isinstance(it, (list, tuple)) and not g.ifs:
+            out = {}
+            for x in it:
+                G = dict(F); self.assign(g.target, x, G)
+                out[self.ev(e.key, G)] = self.ev(e.value, G)
+            return out
+        if 'dictcomp_sym' in self.ext: return self.ext['dictcomp_sym'](self, e, g, it, F)
+        raise Unsupported("dict comprehension over symbolic iterable")
 
     # ----- statements
     def exec_block(self, stmts, F):
@@ -1016,6 +1032,11 @@ class Interp:
             return
         if isinstance(it, RangeV):
             return self.cut_loop(s, F, it)
+        if isinstance(it, EnumV) and isinstance(s.target, ast.Tuple) and len(s.target.elts) == 2 and all(isinstance(e_, ast.Name) for e_ in s.target.elts) and conc(it.start) == 0:
+            # for i, x in enumerate(<array of symbolic length>): cut like `for i in range(len(a)): x = a[i]`
+            return self.cut_loop(s, F, RangeV(0, self.A(it.arr).shape[0]), over=self.A(it.arr), enum=(s.target.elts[0].id, s.target.elts[1].id))
+        if hasattr(it, '_pyvc_for'):
+            return it._pyvc_for(self, s, F)
         if isinstance(it, ArrRef) and isinstance(s.target, ast.Name):
             # for c in <array of symbolic length>: cut like `for k in range(len(a)): c = a[k]` (the array value is snapshotted, as numpy iterates the original buffer)
             return self.cut_loop(s, F, RangeV(0, self.A(it).shape[0]), over=self.A(it))
@@ -1120,17 +1141,18 @@ class Interp:
             return self.havoc_value(r, name, True)
         return v   # None, strings, objects: left as is (contracts must not rely on them changing)
 
-    def cut_loop(self, s, F, rng, over=None):
+    def cut_loop(self, s, F, rng, over=None, enum=None):
         qual = F['$qual']; k = self.loop_ordinal(F, s)
         lc = self.loop_contracts.get((qual, k))
         if lc is None: raise Unsupported(f"loop {qual}#{k} has no contract")
         self.under_contract.add(qual)
         short = qual.split('.')[-1]
         isfor = rng is not None
-        if isfor and not isinstance(s.target, ast.Name): raise Unsupported("for target")
-        var = s.target.id if isfor else None
+        if isfor and enum is None and not isinstance(s.target, ast.Name): raise Unsupported("for target")
+        var = (enum[0] if enum is not None else s.target.id) if isfor else None
         elemvar = None
-        if over is not None:
+        if enum is not None: elemvar = enum[1]
+        elif over is not None:
             elemvar = var; var = f"$k{k}"
         lo = tz(rng.lo) if isfor else IntVal(0)
         hi = tz(rng.hi) if isfor else None
